@@ -3,6 +3,11 @@
 # to catch it and reports whether they did; the tree is restored after each one.
 # usage: selftest.sh [id...]     (expectations: seeded/EXPECT, lines "<id> <Cxx> detect|miss")
 cd /verif
+# the runs on changed trees must not leave their evidence / replay files behind
+keep=$(mktemp -d /verif/out/selftest-keep.XXXXXX 2>/dev/null || (mkdir -p /verif/out && mktemp -d /verif/out/selftest-keep.XXXXXX))
+cp -a evidence "$keep/evidence"; [ -d replays ] && cp -a replays "$keep/replays"
+restore() { rm -rf /verif/evidence /verif/replays; cp -a "$keep/evidence" /verif/evidence; [ -d "$keep/replays" ] && cp -a "$keep/replays" /verif/replays; rm -rf "$keep"; }
+trap restore EXIT
 ids="$@"; [ -z "$ids" ] && ids=$(awk '{print $1}' seeded/EXPECT | sort -u)
 bad=0
 for id in $ids; do
